@@ -189,7 +189,10 @@ func (g *gen) intFor(k reflect.Kind, unique bool) int64 {
 	case reflect.Int16:
 		return int64(g.r.Range(-32768, 32767))
 	case reflect.Uint16:
-		return int64(g.r.Intn(32768))
+		if g.r.Chance(1, 4) {
+			return 65535 - int64(g.r.Intn(3)) // the top of the Go range
+		}
+		return int64(g.r.Intn(65536))
 	case reflect.Uint, reflect.Uint32, reflect.Uint64:
 		return int64(g.r.Intn(1 << 31))
 	}
